@@ -7,6 +7,7 @@ From VQ Require Import Glue.Pin_w_euclid Glue.Pin_w_cosine Glue.Pin_w_vq Glue.Pi
 From VQ Require Import Model.History Proofs.HistoryProofs.
 From VQ Require Import Glue.Pin_fp_C08.
 From VQ Require Import Model.Alias Proofs.AliasProofs Glue.Pin_w_euclid Glue.Pin_w_cosine.
+From VQ Require Import Model.Inventory Glue.InventoryFacts.
 Import ListNotations.
 
 Theorem C08_call_pure :
@@ -328,3 +329,11 @@ Theorem C08_tie_cosine_write_sites_pinned :
   w_cosine.w_cosine = pinned_w_cosine.
 Proof. exact (@Pin_w_cosine.pin_w_cosine). Qed.
 Print Assumptions C08_tie_cosine_write_sites_pinned.
+
+Theorem C08_tie_initialised_flag_is_checkpointed :
+  forallb (fun n : string => has inv_euclid.inv_euclid n Buffer true)
+         ["initted"; "cluster_size"; "embed_avg"; "embed"] = true /\
+       forallb (fun n : string => has inv_cosine.inv_cosine n Buffer true)
+         ["initted"; "cluster_size"; "embed_avg"; "embed"] = true.
+Proof. exact (@InventoryFacts.codebook_state_persistent). Qed.
+Print Assumptions C08_tie_initialised_flag_is_checkpointed.
